@@ -207,7 +207,7 @@ def compositeTail (c : Cfg) (parent : J) (observed : ObjMap) (resp : CompResp) (
   | .ok (parent, desired) => compositeAct c parent observed desired resp.status memo
 
 /-- delayed requeue requested by the hook (milliseconds) -/
-def resyncOps (resp : CompResp) : List Int := if resp.resyncAfter > 0 then [resp.resyncAfter] else []
+def resyncOps (resp : CompResp) : List Int := if resp.resyncAfter > 0 then [clampMs resp.resyncAfter] else []
 
 /-- result of `syncParentObject`: queue operations made on the way, the server-side-apply memo, how it ended -/
 structure SyncRes where
